@@ -21,7 +21,7 @@ fn guarded<F: FnOnce() -> Obs>(f: F) -> Obs {
 }
 
 /// what yasna makes of a connect-response (the BER layer is observed, not modelled)
-fn ber_userdata(payload: &[u8]) -> String {
+pub fn ber_userdata(payload: &[u8]) -> String {
     let r = catch_unwind(AssertUnwindSafe(|| {
         let mut dp = Sequence::new();
         for n in &["maxChannelIds", "maxUserIds", "maxTokenIds", "numPriorities", "minThoughput", "maxHeight", "maxMCSPDUsize", "protocolVersion"] { dp.insert(n.to_string(), Box::new(0 as Integer)); }
@@ -224,6 +224,12 @@ pub fn generate_c05(thorough: bool, seed: u64, part: (usize, usize), em: &mut Em
         for cut in 0..framed.len() { emit(em, format!("x224_stream 3 1 {}", hex(&framed[..cut]))); }
         for extra in &[1usize, 2, 100, 60000] { let mut f = framed.clone(); let n = f.len() + extra; f[2] = (n >> 8) as u8; f[3] = n as u8; emit(em, format!("x224_stream 3 1 {}", hex(&f))); }
     }
+    // every short frame header the server can open with: slow-path and fast-path actions, both fast-path
+    // length forms at their minimal values, then end of stream
+    for b0 in &[0x00u8, 0x03, 0x04, 0x40, 0x80, 0xc3] { for b1 in &[0u8, 1, 2, 3, 4, 5, 0x7f, 0x80, 0x81, 0x82, 0x83, 0x84, 0xff] { for b2 in &[0u8, 1, 2, 3, 4, 5, 0x7f, 0x80, 0xff] {
+        emit(em, format!("x224_stream 3 1 {}", hex(&[*b0, *b1, *b2])));
+        for b3 in &[0u8, 4, 7] { emit(em, format!("x224_stream 3 1 {}", hex(&[*b0, *b1, *b2, *b3]))); }
+    } } }
     // --- GCC conference create response: every byte faulted, truncations, block-level attacks
     let gcc_good = refsrv::gcc_response(&p);
     for off in 0..gcc_good.len() { for v in fault_vals { let mut b = gcc_good.clone(); b[off] = *v; emit(em, format!("gcc_ccr {}", hex(&b))); } }
